@@ -76,7 +76,7 @@ def run(ctx):
     ok &= sweep(ctx, 'wows', 12, 3, elem=('u', 2), shape='B')      # an entity with a BASE_AND_CLIENT property: 5 exposed / 4 own-client properties
     ctx.obligation('correspondence: library = extracted model on the nested sweeps', ok)
     for n in (122, 123, 124, 125, 130, 200, 249, 250): big_payload(ctx, n)     # payload lengths 126..254 around the signed-byte boundary
-    worldcheck.run_histories(ctx, 'C06', n_defsets=8 if q else 60, hist_per_set=3, sizes=[80, 250] if q else [80, 250, 700],
+    worldcheck.run_histories(ctx, 'C06', n_defsets=14 if q else 60, hist_per_set=3, sizes=[80, 250] if q else [80, 250, 700],
                              dialects=('wows', 'wows126', 'wot'))
     recordings.payload_check(ctx, 'C06', quick_n=3)
 
